@@ -186,6 +186,7 @@ def run_root(E, body, contract=None):
             rr.args = list(args)
             rr.subjects = specs.subjects_of(E, st, args)
             rr.st0 = st.fork()
+        E.root_entry = (list(args), rr.st0 if rr.st0 is not None else st.fork())
         if contract in ('not-full', 'no-append'):
             for ms in st.maps.values():
                 if ms.borrowed and not ms.phantom:
